@@ -13,6 +13,7 @@ def errTag : Err → String
   | .attributeError => "AttributeError"
   | .keyError => "KeyError"
   | .valueError => "ValueError"
+  | .indexError => "IndexError"
   | .unmodelled => "unmodelled"
 
 def jDT (t : DT) : Json := jList jNat [t.y, t.mo, t.d, t.H, t.M, t.S]
@@ -151,10 +152,25 @@ def ofFiles (j : Json) : Except String Files := do
   let l ← a.toList.mapM (fun t => do pure (← getCps t "name", ← ofRel t))
   pure (fun n => (l.lookup n).getD {})
 
-def jField (f : Field) : Json := Json.arr #[cps f.name, Json.str (dtTag f.dt)]
+def jSField (f : SField) : Json :=
+  Json.arr #[cps f.name, cps f.datatype, jList cps f.flags, optCps f.comment]
 
-def jSchema (s : Schema) : Json :=
-  jList (fun t => Json.mkObj [("name", cps t.1), ("fields", jList jField t.2)]) s
+def jSSchema (s : SSchema) : Json :=
+  jList (fun t => Json.mkObj [("name", cps t.1), ("fields", jList jSField t.2)]) s
+
+def ofSField (j : Json) : Except String SField := do
+  let flags ← match j.getObjVal? "flags" with
+    | .ok Json.null => pure []
+    | .ok v => (← v.getArr?).toList.mapM ofCps
+    | .error _ => pure []
+  let dt ← match j.getObjVal? "dtc" with
+    | .ok v => ofCps v
+    | .error _ => do pure (← getStr j "dt").toList
+  pure { name := ← getCps j "name", datatype := dt, flags := flags, comment := ← getOptCps j "comment" }
+
+def ofSSchema (j : Json) : Except String SSchema := do
+  let a ← j.getArr?
+  a.toList.mapM (fun t => do pure (← getCps t "name", ← (← getArr t "fields").mapM ofSField))
 
 def handle (j : Json) : Except String Json := do
   let op ← getStr j "op"
@@ -179,16 +195,27 @@ def handle (j : Json) : Except String Json := do
                        schema := ← ofOptSchema j "schema", gzip := ← getBool j "gzip" }
     let watch ← (← getArr j "watch").mapM ofCps
     let (d, e) := writeDb MID q src dst
-    let back := readSchemaBack q.target
+    let tss ← match j.getObjVal? "schema" with
+      | .ok Json.null => ofSSchema (← j.getObjVal? "src_schema")
+      | .ok v => ofSSchema v
+      | .error _ => ofSSchema (← j.getObjVal? "src_schema")
+    let back := openSchema (writeSchemaFile tss)
     let rels := watch.map (fun n =>
       let fs : Option (List Field) := match back with
-        | .ok s => s.lookup n
+        | .ok s => (s.toSchema.getD []).lookup n
         | .error _ => none
       Json.mkObj (obsRel fs (d n)))
     pure (Json.mkObj [
       ("res", Json.str (match e with | none => "ok" | some e => errTag e)),
-      ("schema", jExcept jSchema back),
+      ("schema", jExcept jSSchema back),
       ("rels", Json.arr rels.toArray)])
+  | "schema_rt" =>
+    let ss ← ofSSchema (← j.getObjVal? "schema")
+    let lines := writeSchemaFile ss
+    pure (Json.mkObj [("lines", jList cps lines), ("parsed", jExcept jSSchema (openSchema lines))])
+  | "schema_parse" =>
+    let lines ← (← getArr j "lines").mapM ofCps
+    pure (jExcept jSSchema (parseSchema lines))
   | _ => throw s!"bad op {op}"
 
 end Verif.C09.Driver
